@@ -171,6 +171,9 @@ impl RustCodeGenerator {
             r#type.to_const_lit_string(),
             if let RustType::Complex(..) = r#type {
                 format!("{}::new({})", r#type.to_const_lit_string(), value)
+            } else if let RustType::VecU8(..) = r#type {
+                // the literal is an array, the constant a slice
+                format!("&{}", value)
             } else {
                 value.to_string()
             }
@@ -397,7 +400,17 @@ impl RustCodeGenerator {
                 Cow::Borrowed("default"),
                 vec![
                     Self::asn_attribute_type(inner),
-                    default.as_rust_const_literal(true).to_string(),
+                    match default {
+                        // the attribute parser expects a byte string literal
+                        crate::model::LiteralValue::OctetString(bytes) => format!(
+                            "b\"{}\"",
+                            bytes
+                                .iter()
+                                .map(|b| format!("\\x{:02x}", b))
+                                .collect::<String>()
+                        ),
+                        default => default.as_rust_const_literal(true).to_string(),
+                    },
                 ],
             ),
             Type::SequenceOf(inner, size) => (
